@@ -1,7 +1,7 @@
 #!/bin/bash
 # re-run every seeded change and every control of one property against the CURRENT checks (quick tier), sequentially
 p=$1
-for d in /verif/seeded/$p-* /verif/controls/$p-*; do n=$(basename $d); kind=$(basename $(dirname $d)); python3 - "$d" "$n" "$kind" <<'PY'
+for d in /verif/seeded/$p-* /verif/controls/$p-*; do n=$(basename $d); kind=$(basename $(dirname $d)); if [ -n "${ONLY:-}" ] && ! echo "$kind/$n" | grep -Eq "$ONLY"; then continue; fi; python3 - "$d" "$n" "$kind" <<'PY'
 import json,os,subprocess,sys,tempfile,shutil,re
 d,n,kind=sys.argv[1],sys.argv[2],sys.argv[3]
 prop=n.split('-')[0]
